@@ -51,6 +51,18 @@ CLAIMED.update({
         note="One-directional like the property (a 413 is only flagged as spurious when every limit is at least the whole body size). Known finding L2 is recorded in known_findings.json.",
         technique="deterministic simulation: limit configurations x fragmenting, fault-injecting input stream, buffer monitor + differential oracle against the unlimited parse",
     ),
+    "C18": dict(
+        category="exploration",
+        text="The same generated history (set/get/delete, iterate, push/pop/top, release, cleanup, proxies of five kinds created in one context and used in another, child spawns, "
+        "task cancellation) runs on real werkzeug.local objects in four realisations of 'context': contextvars.Context.run; real threads stepped one operation at a time by a baton; "
+        "free-running real threads whose every line inside werkzeug/local.py is a pre-emption point decided by the schedule tape; real asyncio.Tasks on a seeded virtual-time event loop "
+        "that picks the next ready callback from the tape. A reference model (one mapping, stack and value per context; children copy the parent's snapshot) is updated inline; after every "
+        "step the acting context's complete visible state - and in the stepped realisations every context's - must equal its model; proxies must resolve per accessing context and behave "
+        "unbound exactly where the model has no binding.",
+        design_ref="3.10",
+        note="Sampling of interleavings, not enumeration. Pre-emption is at operation boundaries and at line granularity inside local.py; bytecode-level races are out of reach.",
+        technique="deterministic simulation: seeded interleavings of contexts/threads/tasks (baton scheduler, line-level pre-emption, virtual-time event loop) against a per-context reference model",
+    ),
 })
 
 NOT_APPLICABLE = {
